@@ -24,6 +24,9 @@ ASSUMPTIONS = ["a pre-existing payload WITHOUT info that os.path.exists cannot s
 KINDS = ['f', 'd', 'l']
 
 
+RULE += ' Since round 8: lock step with a failing .trashinfo write in process 0 (ENOSPC/EDQUOT/EIO on every write) while names are taken.'
+
+
 def victim_nodes(path, kind, tag):
     if kind == 'f':
         return [['f', path, 'content of %s' % tag]]
@@ -227,6 +230,20 @@ def run(run, thorough):
             res = sandbox.execute_concurrent(scn, steps, sched)
             judge(run, dict(scn, steps=steps), res, victims, pre, 'failing-move:' + shape, 'lockstep-2-failing-move')
             judge_bystander(run, dict(scn, steps=steps), res, 'failing-move:' + shape)
+    # --- lock step with a FAILING write of the .trashinfo in process 0 (no space / quota / I/O error on every write it attempts), names
+    # already taken in the trash: whatever process 0 cleans up must be the file it had just created - never the .trashinfo of the
+    # earlier entry of that name, never the other process's
+    for pre in ['pair', 'info_only', 'pair_dir']:
+        kinds = rng.choice([('f', 'f'), ('d', 'f'), ('f', 'd')])
+        scheds = schedules_systematic(nops=12)[::3] + [('random', [rng.randint(0, 1) for _ in range(80)]) for _ in range(3 if not thorough else 40)]
+        for shape, sched in scheds:
+            if shape == 'random':
+                shape = 'random:' + ''.join(str(x) for x in sched)
+            scn, steps, victims = make_scn(2, kinds, pre)
+            steps[0]['plan'] = {'faults': {'write': {'errno': rng.choice([errno.ENOSPC, errno.EDQUOT, errno.EIO])}}}
+            res = sandbox.execute_concurrent(scn, steps, sched)
+            judge(run, dict(scn, steps=steps), res, victims, pre, 'failing-write:' + shape, 'lockstep-2-failing-write')
+            judge_bystander(run, dict(scn, steps=steps), res, 'failing-write:' + shape, section='lockstep-2-failing-write')
     # --- 3 processes, random schedules
     for _ in range(15 if not thorough else 200):
         pre = rng.choice(pres)
@@ -291,14 +308,15 @@ def replay(run, payload):
         return
     if isinstance(sched, str) and sched.startswith('no-excl:'):
         sched = dict(schedules_systematic(nops=8)).get(sched[len('no-excl:'):], [0, 1] * 40)
-    if isinstance(sched, str) and sched.startswith('failing-move:random:'):
-        sched = [int(c) for c in sched[len('failing-move:random:'):]]
-    if isinstance(sched, str) and sched.startswith('failing-move:'):
-        sched = dict(schedules_systematic(nops=12)).get(sched[len('failing-move:'):], [0, 1] * 40)
+    for fam in ('failing-move:', 'failing-write:'):
+        if isinstance(sched, str) and sched.startswith(fam + 'random:'):
+            sched = [int(c) for c in sched[len(fam + 'random:'):]]
+        if isinstance(sched, str) and sched.startswith(fam):
+            sched = dict(schedules_systematic(nops=12)).get(sched[len(fam):], [0, 1] * 40)
     if isinstance(sched, str):
         sched = dict(schedules_systematic()).get(sched, [0, 1] * 40) if sched != 'free-running' else None
     res = sandbox.execute_concurrent({k: v for k, v in scn.items() if k != 'steps'}, steps, sched)
     print('exits', [o.get('exit') for o in res['steps']])
-    if isinstance(case.get('schedule'), str) and case['schedule'].startswith('failing-move:'):
+    if isinstance(case.get('schedule'), str) and case['schedule'].startswith(('failing-move:', 'failing-write:')):
         judge_bystander(run, scn, res, case['schedule'], 'replay')
     judge(run, scn, res, victims, '?', sched if sched is not None else 'free-running', 'replay')
